@@ -50,6 +50,7 @@ _h("c06_pow2_constructors_total", ["C06"])
 _h("c14_span_roundtrip_len3", ["C14", "C06"], timeout=1200)
 _h("c14_span_roundtrip_len4", ["C14", "C06"], tier=T, timeout=3000)
 _h("c06_span_to_slice_total", ["C06"], timeout=1200)
+# tried and dropped: `Span::from(&str)` (str::lines() over symbolic bytes: CBMC out of memory even for 0..3 bytes)
 
 
 def select(prop, tier):
